@@ -227,6 +227,8 @@ def run(tier, seed):
         rejected.update(rj)
         accepted.update(c["id"] for c in acc)
         for p in problems:
+            if p["stage"] == "timeout":
+                core.die("build of module %s timed out (machinery, not a verdict)" % name)
             rep.disagree({"aspect": "build", "stage": p["stage"], "hazards": ",".join(sorted({hz[i] for i in p["ids"]}))[:200]},
                          "build-failed", {"errors": p["errors"], "ids": p["ids"][:20]})
     n_def = 0
